@@ -367,7 +367,7 @@ def defrag (db : DB) : DB :=
     let db := bufFlush sink db w
     let db := writedatfile db
     let db := cleanupold db (if recs.isEmpty then [] else [seq])
-    { db with extra := 0 }
+    { db with extra := 0, pending := [] }
 
 /-- one pending key of sync(): data to the dat file, index entry to the buffer -/
 def syncKey (st : DB × Bytes) (k : Key) : DB × Bytes :=
@@ -446,13 +446,13 @@ def walkRes (walk : List (Key × Nat)) (k : Key) : Nat :=
   | none => 0
 
 /-- `Browse` with a walk function that returns `walkRes walk k` for key k (never BR_ABORT) -/
-def browseStep (walk : List (Key × Nat)) (st : DB × List (Key × Rec) × List (Key × Bytes)) (kr : Key × Rec) :
-    DB × List (Key × Rec) × List (Key × Bytes) :=
+def browseStep (all : Bool) (walk : List (Key × Nat)) (st : DB × List (Key × Rec) × List (Key × Bytes))
+    (kr : Key × Rec) : DB × List (Key × Rec) × List (Key × Bytes) :=
   let (db, acc, out) := st
   match db.failed with
   | some _ => st
   | none =>
-    if hasFlag kr.2.flags NO_BROWSE then (db, acc ++ [kr], out)
+    if !all && hasFlag kr.2.flags NO_BROWSE then (db, acc ++ [kr], out)
     else match loadrec db.fs kr.2 with
       | none => (fail db "exit", acc ++ [kr], out)
       | some r =>
@@ -460,12 +460,17 @@ def browseStep (walk : List (Key × Nat)) (st : DB × List (Key × Rec) × List 
         let r := freerec { r with flags := applyBrowsingFlags r.flags (walkRes walk kr.1) }
         (db, acc ++ [(kr.1, r)], out ++ [(kr.1, val)])
 
-def browse (db : DB) (walk : List (Key × Nat)) : DB × List (Key × Bytes) :=
+def browseGen (all : Bool) (db : DB) (walk : List (Key × Nat)) : DB × List (Key × Bytes) :=
   if db.failed.isSome then (db, []) else
-  let (db', idx, out) := db.index.foldl (browseStep walk) (db, [], [])
+  let (db', idx, out) := db.index.foldl (browseStep all walk) (db, [], [])
   match db'.failed with
   | some _ => (db', out)
   | none => ({ db' with index := idx }, out)
+
+def browse (db : DB) (walk : List (Key × Nat)) : DB × List (Key × Bytes) := browseGen false db walk
+
+/-- `BrowseAll`: as Browse but NO_BROWSE records are visited too -/
+def browseAll (db : DB) (walk : List (Key × Nat)) : DB × List (Key × Bytes) := browseGen true db walk
 
 def applyFlags (db : DB) (k : Key) (fl : Nat) : DB :=
   if db.failed.isSome then db else
